@@ -39,6 +39,10 @@ def tomo_case(draw, n=None):
         prog = draw(qubits.entangling_program(n, max_heralded=1))
     else:
         prog = draw(qubits.qubit_program(n, max_gates=5 if n < 3 else 4, max_heralded=1))
+    if draw(st.integers(0, 2)) == 0:
+        # heralds declared directly on the base circuit (outside the qubit modes)
+        prog = dict(prog)
+        prog["pad"] = draw(st.sampled_from([[1, 0], [0, 1], [1, 1], [2, 0]]))
     return {"prog": prog, "edit": draw(st.booleans()), "edit_seed": draw(st.integers(0, 999))}
 
 
@@ -72,10 +76,11 @@ def run_tomo(case):
         used = set()
         settings = list(itertools.product("XYZ", repeat=n))
         expected = {}
+        kf = prog.get("pad", [0, 0])[0]
         for stg in settings:
             e = base.copy()
             for q, m in enumerate(stg):
-                e.add(lw.Unitary(MEAS[m]), 2 * q)
+                e.add(lw.Unitary(MEAS[m]), kf + 2 * q)      # basis change on the modes of qubit q
             expected[stg] = e.U_full
         for c in circs:
             if c.heralds != base.heralds or c.input_modes != 2 * n:
@@ -117,7 +122,7 @@ def run_tomo(case):
     if case["edit"]:
         # structural in-place edit of the base circuit, then process() again on the same object
         W = qubits.make_unitary("haar", 2, case["edit_seed"])
-        base.add(lw.Unitary(W), 0)
+        base.add(lw.Unitary(W), prog.get("pad", [0, 0])[0])
         snap_now[0] = snapshot(base)
         V2 = qubits.on_qubit(n, 0, W) @ V
         one_round(V2, "process() after editing the base circuit")
@@ -136,6 +141,8 @@ def run_tomo(case):
     labels.add(f"n={n}")
     if qubits.herald_photons(prog):
         labels.add("heralded-gate")
+    if "pad" in prog:
+        labels.add("heralds-declared-on-base-circuit")
     return {"nontrivial": nonreal or entangled, "labels": sorted(labels)}
 
 
